@@ -19,7 +19,7 @@ func c12Plan(lens []int, capsIn []int) *driver.Plan {
 }
 
 func c12Gen(r *driver.Rand, thorough bool) *driver.Plan {
-	k := driver.Pick(r, 0, 1, 2, 2, 3, 3, 5, 5, 8, 9, 12, 17)
+	k := driver.Pick(r, 0, 1, 2, 2, 3, 3, r.Intn(11), r.Intn(11), 12, 17)
 	lens := make([]int, k)
 	for i := range lens {
 		lens[i] = r.Intn(7)
@@ -30,7 +30,7 @@ func c12Gen(r *driver.Rand, thorough bool) *driver.Plan {
 			lens[i] = r.Intn(31)
 		}
 	}
-	p := c12Plan(lens, []int{driver.Pick(r, 0, 1, 3), driver.Pick(r, 0, 1, 3), driver.Pick(r, 0, 1, 3)})
+	p := c12Plan(lens, []int{genCap(r), genCap(r), genCap(r)})
 	p.Producers = nil
 	p.Consumers = nil
 	genEnvPaces(r, p, k, 1)
